@@ -543,6 +543,7 @@ pub fn run(tier: Tier, started: Instant) -> Vec<Part> {
     let mut v = vec![scripts("C19", depth, tier, started)];
     v.push(decode_on_receive_path(tier));
     v.push(udp_send_faults(tier.pick(3, 4)));
+    v.push(udp_recv_sequences("C19", tier.pick(2, 3)));
     v.push(udp_smoke());
     v
 }
@@ -861,6 +862,147 @@ pub fn decode_on_receive_path(tier: Tier) -> Part {
     part
 }
 
+/// The real `UdpSocket::recv` as a function from a datagram stream to a message stream: garbage is
+/// skipped, valid messages come out unchanged and in order, nothing is fatal. Deciding for the
+/// deterministic outcomes (an error, a panic, a wrong message); a timeout is inconclusive.
+pub fn udp_recv_sequences(property: &'static str, max_len: usize) -> Part {
+    let mut part = Part::new(&format!("server/udp-recv-sequences(len<={max_len})"));
+    part.rule = format!("the real chitchat::transport::UdpTransport socket on 127.0.0.1: every sequence of at most {max_len} datagrams over {{empty, 1 byte, the 2 magic bytes, magic + version, 'junk', a valid SYN cut by one byte, a valid ACK cut in the middle, 65,507 zero bytes, a valid tagged SYN, BadCluster}} followed by a final valid tagged SYN, sent from a plain UDP socket; `recv()` on the real socket must yield exactly the valid messages of the sequence, in order (garbage skipped, no error, no panic); non-trivial = sequences containing garbage");
+    let tagged = |tag: &str| crate::codec::encode(&Msg::Syn { digest: vec![DigestEntry { id: peer_id(), heartbeat: 7, gc: 0, mv: 0 }], cluster_id: tag.to_string() });
+    let valid_syn = tagged("c");
+    let valid_ack = crate::codec::encode(&Msg::Ack { ops: vec![Op::Node { id: peer_id(), gc: 0, from: 0 }, Op::Kv { key: "k".into(), value: "v".repeat(40), version: 1, status: 0 }] });
+    // (name, bytes, is a valid message)
+    let alphabet: Vec<(&'static str, Vec<u8>, bool)> = vec![
+        ("empty", vec![], false),
+        ("one-byte", valid_syn[..1].to_vec(), false),
+        ("magic-only", valid_syn[..2].to_vec(), false),
+        ("magic+version", valid_syn[..3].to_vec(), false),
+        ("junk", b"junk".to_vec(), false),
+        ("syn-cut-by-one", valid_syn[..valid_syn.len() - 1].to_vec(), false),
+        ("ack-cut-in-the-middle", valid_ack[..valid_ack.len() / 2].to_vec(), false),
+        ("65507-zeros", vec![0u8; 65_507], false),
+        ("valid-syn", tagged("mid-sequence"), true),
+        ("bad-cluster", crate::codec::encode(&Msg::BadCluster), true),
+    ];
+    let mut seqs: Vec<Vec<usize>> = vec![vec![]];
+    let mut layer: Vec<Vec<usize>> = vec![vec![]];
+    for _ in 0..max_len {
+        let mut next = vec![];
+        for q in &layer {
+            for i in 0..alphabet.len() {
+                let mut q2 = q.clone();
+                q2.push(i);
+                next.push(q2);
+            }
+        }
+        seqs.extend(next.iter().cloned());
+        layer = next;
+    }
+    let n_seqs = seqs.len();
+    let alpha = alphabet.clone();
+    type Out = (u64, u64, Vec<(String, String, Value)>, Vec<String>);
+    let outcome = std::thread::spawn(move || -> Result<Out, String> {
+        let rt = tokio::runtime::Builder::new_current_thread().enable_all().build().map_err(|e| e.to_string())?;
+        rt.block_on(async move {
+            // find a free port for the socket under test (its trait object does not tell its address)
+            let probe = std::net::UdpSocket::bind("127.0.0.1:0").map_err(|e| format!("bind: {e}"))?;
+            let addr = probe.local_addr().map_err(|e| e.to_string())?;
+            drop(probe);
+            let mut sock = chitchat::transport::UdpTransport.open(addr).await.map_err(|e| format!("open: {e}"))?;
+            let client = tokio::net::UdpSocket::bind("127.0.0.1:0").await.map_err(|e| format!("bind: {e}"))?;
+            let (mut ran, mut with_garbage) = (0u64, 0u64);
+            let mut viols = vec![];
+            let mut notes = vec![];
+            for (si, seq) in seqs.iter().enumerate() {
+                ran += 1;
+                if seq.iter().any(|i| !alpha[*i].2) {
+                    with_garbage += 1;
+                }
+                let final_syn = crate::codec::encode(&Msg::Syn { digest: vec![], cluster_id: format!("final-{si}") });
+                let names: Vec<&str> = seq.iter().map(|i| alpha[*i].0).collect();
+                let replay = json!({"engine":"server","udp_recv": names});
+                let mut expected: Vec<Vec<u8>> = vec![];
+                for i in seq {
+                    if client.send_to(&alpha[*i].1, addr).await.is_err() {
+                        notes.push(format!("client could not send `{}` (inconclusive)", alpha[*i].0));
+                    } else if alpha[*i].2 {
+                        expected.push(alpha[*i].1.clone());
+                    }
+                }
+                let _ = client.send_to(&final_syn, addr).await;
+                expected.push(final_syn);
+                let mut bad: Option<(String, String)> = None;
+                let mut lost = false;
+                for (k, want) in expected.iter().enumerate() {
+                    match tokio::time::timeout(Duration::from_secs(3), sock.recv()).await {
+                        Ok(Ok((_, m))) => {
+                            if real::real_encode(&m) != *want {
+                                bad = Some((format!("after datagrams {names:?} the socket's message #{k} is not the valid message that was sent"), "udp-recv-wrong-message".into()));
+                                break;
+                            }
+                        }
+                        Ok(Err(e)) => {
+                            bad = Some((format!("recv() returned a fatal error after datagrams {names:?}: {e:#}"), "udp-recv-fatal-on-garbage".into()));
+                            break;
+                        }
+                        Err(_) => {
+                            notes.push(format!("timeout waiting for message #{k} after {names:?} (inconclusive)"));
+                            lost = true;
+                            break;
+                        }
+                    }
+                }
+                if let Some((what, sig)) = bad {
+                    viols.push((what, sig, replay));
+                    // the socket may be unusable now: reopen
+                    drop(sock);
+                    sock = chitchat::transport::UdpTransport.open(addr).await.map_err(|e| format!("reopen: {e}"))?;
+                } else if lost {
+                    // drain so that late datagrams do not pollute the next sequence
+                    while let Ok(Ok(_)) = tokio::time::timeout(Duration::from_millis(20), sock.recv()).await {}
+                }
+                if viols.len() > 10 {
+                    break;
+                }
+            }
+            Ok((ran, with_garbage, viols, notes))
+        })
+    })
+    .join()
+    .unwrap_or_else(|_| Err("PANIC".into()));
+    match outcome {
+        Ok((ran, with_garbage, viols, notes)) => {
+            part.states = ran;
+            part.transitions = ran;
+            part.executions = ran;
+            part.distinct_nontrivial = with_garbage;
+            part.tally.add("sequences", ran);
+            part.tally.add("sequences_with_garbage", with_garbage);
+            for (what, sig, replay) in viols {
+                part.violation(property, what, sig, replay);
+            }
+            let inconclusive = notes.len();
+            for n in notes.into_iter().take(5) {
+                part.notes.push(n);
+            }
+            if (ran as usize) < n_seqs || inconclusive > 0 {
+                part.exhaustive = false;
+                part.caps_hit.push(format!("{} of {n_seqs} sequences run, {inconclusive} inconclusive (timeouts)", ran));
+            }
+        }
+        Err(e) if e == "PANIC" => {
+            part.violation(property, "the real UDP socket's recv() panicked on a garbage datagram (the panic unwinds the server task)".into(), "udp-recv-panic".into(), json!({"engine":"server","udp_recv":"see the decode-on-receive-path part for the shortest input"}));
+        }
+        Err(e) => {
+            part.exhaustive = false;
+            part.caps_hit.push(format!("not run: {e}"));
+            part.notes.push(format!("udp recv sequences inconclusive: {e}"));
+        }
+    }
+    part.sample(json!(["magic-only", "65507-zeros", "valid-syn", "valid-syn(final)"]));
+    part
+}
+
 /// The round-level clause of C17 (every round contacts the seed when it has to, whatever happened to
 /// the earlier sends of the round) on the real server loop: same scripts, only that oracle reported.
 pub fn run_c17(tier: Tier, started: Instant) -> Vec<Part> {
@@ -1141,6 +1283,13 @@ pub fn udp_send_faults(max_len: usize) -> Part {
 }
 
 pub fn replay(v: &Value) -> Result<(), String> {
+    if v.get("udp_recv").is_some() {
+        let p = udp_recv_sequences("C19", 2);
+        return match p.violations.first() {
+            Some(x) => Err(x.what.clone()),
+            None => Ok(()),
+        };
+    }
     if v.get("udp_sends").is_some() {
         let p = udp_send_faults(3);
         return match p.violations.first() {
